@@ -167,12 +167,14 @@ Definition strip_bang (v:str) : str * bool :=
 Definition expect_eq (w:word) : res unit :=
   if eqs (wv w) ["="] then Ok tt else E "SyntaxExpected" (wv w) (wline w).
 
-(* ---------- scope.adopt with dotted names *)
+(* ---------- scope.adopt with dotted names.  The implicit prefix scopes are made by
+   scope(name=name, primary_id=object.primary_id): they carry the primary id of the object they lead
+   to (since /repo 2398dd1; before that they had none), is_template 0, an empty where_str (line 0) *)
 Fixpoint wrap_dotted (first:bool) (comps:list str) (o:obj) : obj :=
   match comps with
   | [] => o
   | [last] => if first then o else set_hdr o (with_merge (with_name (ohdr o) last) true)
-  | c :: rest => Scp (mkhdr c false 0 (negb first) 0 0) [wrap_dotted false rest o] []
+  | c :: rest => Scp (mkhdr c false 0 (negb first) (opid (ohdr o)) 0) [wrap_dotted false rest o] []
   end.
 Definition adopt (o:obj) : obj := wrap_dotted true (splitdot (oname (ohdr o))) o.
 Definition prefix_reserved (name:str) : bool :=
